@@ -114,6 +114,7 @@ Proof.
   destruct (_ || _); [discriminate|].
   destruct (_ >? len data); [discriminate|].
   apply nf_bind; [apply nf_lift|]. intros entries _.
+  destruct (negb (offsets_ok entries 0)); [discriminate|].
   apply nf_bind.
   - destruct (negb (Z.land header jbFObject =? 0)).
     + unfold parseJSONBObject. apply nf_bind; [|intros; discriminate].
